@@ -1,13 +1,246 @@
-/- C16 — first layer; see DESIGN.md §5 -/
-import UBidi.Model.Reorder
-import UBidi.Spec.UAX9
-import UBidi.Spec.Reorder
-namespace UBidi.Props.C16
-open UBidi
+/-
+  C16 — `get_base_direction` / `get_base_direction_full` implement rules P2/P3.
 
-/-- the analysis of the empty text is empty and does not fail -/
-theorem empty_text (ds : DataSource) (d : Option Nat) :
-    (bidiInfo ds (Text.ofScalars []) d).levels = [] ∧ (bidiInfo ds (Text.ofScalars []) d).err = none := by
-  constructor <;> rfl
+  Specification-level helpers (defined in `UBidi/Lemmas/C16Defs.lean`, shown here by their equations
+  `rawClasses_def`, `paragraphsOf_nil/_B/_other`, `p2Dir_def`):
+
+  * `rawClasses ds t`   — the bidi class of every character of the text;
+  * `paragraphsOf cs`   — rule P1 on classes: split after every B (each paragraph keeps its B, no empty
+                          paragraph, `flatten` gives the input back); it is `Spec.splitParagraphs` seen on
+                          classes (`paragraphsOf_is_P1`);
+  * `p2Dir p`           — rule P2 as a `Direction`: `Spec.firstStrong` (first L/R/AL, skipping from an
+                          isolate initiator to its matching PDI by `Spec.matchingPDI`, or to the end of the
+                          paragraph) — `.ltr` for L, `.rtl` for R/AL, `.mixed` when there is none.
+
+  Main theorems: `C16_first`, `C16_full` (the two queries are P2 on the first paragraph, resp. on the
+  first paragraph that has an answer), `C16_levels` (the paragraph levels auto-detected by
+  `compute_initial_info` are `Spec.paraLevel none` of the paragraphs), `C16_agree_first`,
+  `C16_agree_full` (agreement of the queries with the analysis).
+-/
+import UBidi.Lemmas.C16Initial
+import UBidi.Lemmas.C16Paras
+namespace UBidi.Props.C16
+open UBidi BidiClass
+
+/-! ### the specification helpers -/
+
+theorem rawClasses_def (ds : DataSource) (t : Text) :
+    rawClasses ds t = t.segs.map (fun s => ds.cls s.cp) := rfl
+
+theorem paragraphsOf_nil : paragraphsOf [] = [] := rfl
+
+theorem paragraphsOf_B (cs : List BidiClass) : paragraphsOf (B :: cs) = [B] :: paragraphsOf cs :=
+  paragraphsOf_cons_B cs
+
+theorem paragraphsOf_other (c : BidiClass) (hc : c ≠ B) (cs : List BidiClass) :
+    paragraphsOf (c :: cs) =
+      (match paragraphsOf cs with
+       | [] => [[c]]
+       | p :: ps => (c :: p) :: ps) := by
+  cases he : paragraphsOf cs with
+  | nil => exact paragraphsOf_cons_ne_nil hc he
+  | cons p ps => exact paragraphsOf_cons_ne_cons hc he
+
+theorem p2Dir_def (cs : List BidiClass) :
+    p2Dir cs = (match Spec.firstStrong (cs.length + 1) cs with
+                | some .L => .ltr
+                | some _ => .rtl
+                | none => .mixed) := rfl
+
+/-- `paragraphsOf` is the Spec's rule P1 (`Spec.splitParagraphs`) seen on classes -/
+theorem paragraphsOf_is_P1 (cs : List Spec.Ch) :
+    paragraphsOf (cs.map (·.cls)) = (Spec.splitParagraphs cs).map (·.map (·.cls)) :=
+  (splitParagraphs_classes cs).symm
+
+/-- the paragraphs are a partition of the text into non-empty pieces, and a B can only be the last
+    character of a paragraph -/
+theorem paragraphsOf_shape (cs : List BidiClass) :
+    (paragraphsOf cs).flatten = cs ∧
+    (∀ p ∈ paragraphsOf cs, p ≠ []) ∧
+    (∀ p ∈ paragraphsOf cs, ∀ i, p[i]? = some B → i + 1 = p.length) := by
+  refine ⟨paragraphsOf_flatten cs, paragraphsOf_ne_nil cs, ?_⟩
+  intro p hp
+  have h := paragraphsOf_onlyFinalB cs p hp
+  clear hp
+  induction p with
+  | nil => simp
+  | cons c p ih =>
+    intro i hi
+    cases i with
+    | zero =>
+      simp at hi
+      simp [h.1 hi]
+    | succ i =>
+      simp at hi
+      have := ih h.2 i hi
+      simp [this]
+
+/-- the fuel given to `Spec.firstStrong` in `p2Dir` (and in `Spec.paraLevel`) is enough: more fuel
+    changes nothing -/
+theorem p2Dir_fuel (cs : List BidiClass) (fuel : Nat) (h : cs.length < fuel) :
+    Spec.firstStrong fuel cs = Spec.firstStrong (cs.length + 1) cs :=
+  firstStrong_fuel fuel (cs.length + 1) cs h (by omega)
+
+/-! ### the counter of `get_base_direction_impl` against BD9 -/
+
+/-- Core: right after an isolate initiator (counter `d + 1`) whose matching PDI (BD9,
+    `Spec.matchingPDI`) is `k` characters further, the scan reports nothing inside and continues after
+    the PDI with counter `d`; both variants. -/
+theorem C16_counter_matched (ds : DataSource) (full : Bool) (d k : Nat) (cps : List Nat)
+    (h : Spec.matchingPDI (cps.map ds.cls) 0 0 = some k) :
+    baseDirLoop ds full (d + 1) cps = baseDirLoop ds full d (cps.drop (k + 1)) := by
+  rw [baseDirLoop_eq, baseDirLoop_eq, List.map_drop]
+  exact dirLoop_skip_some full _ 0 d k h
+
+/-- Core: … and when the initiator has no matching PDI the non-full scan reports nothing
+    (up to the end of the paragraph, where it stops). -/
+theorem C16_counter_unmatched (ds : DataSource) (d : Nat) (cps : List Nat)
+    (h : Spec.matchingPDI (cps.map ds.cls) 0 0 = none) :
+    baseDirLoop ds false (d + 1) cps = .mixed := by
+  rw [baseDirLoop_eq]
+  exact dirLoop_skip_none _ 0 d h
+
+/-! ### main theorems -/
+
+/-- `get_base_direction`: P2 on the first paragraph, `Mixed` when it has no strong character outside
+    isolates (or when the text is empty). -/
+theorem C16_first (ds : DataSource) (t : Text) :
+    baseDirection ds t false = ((paragraphsOf (rawClasses ds t)).head?.map p2Dir).getD .mixed := by
+  rw [baseDirection_eq, dirLoop_false_head]
+  cases he : paragraphsOf (rawClasses ds t) with
+  | nil => rfl
+  | cons p ps =>
+    have hp : OnlyFinalB p := paragraphsOf_onlyFinalB (rawClasses ds t) p (by simp [he])
+    simp [p2Dir_eq_dirLoop p hp]
+
+/-- `get_base_direction_full`: P2 on the first paragraph for which P2 finds a character; `Mixed`
+    when there is no such paragraph. -/
+theorem C16_full (ds : DataSource) (t : Text) :
+    baseDirection ds t true =
+      (((paragraphsOf (rawClasses ds t)).map p2Dir).find? (· != .mixed)).getD .mixed := by
+  rw [baseDirection_eq, dirLoop_true_find, parasDirs_zero]
+  congr 2
+  apply List.map_congr_left
+  intro p hp
+  exact (p2Dir_eq_dirLoop p (paragraphsOf_onlyFinalB _ p hp)).symm
+
+/-- The analysis (`compute_initial_info` with automatic level, splitting paragraphs) gives every
+    paragraph the level of rules P2/P3. -/
+theorem C16_levels (ds : DataSource) (t : Text) (hwf : t.WF) :
+    (computeInitialInfo ds t none true).paras.map (·.level) =
+      (paragraphsOf (rawClasses ds t)).map (Spec.paraLevel none) :=
+  initial_levels ds t hwf
+
+/-- the number of paragraphs of the analysis is the number of P1 paragraphs -/
+theorem C16_para_count (ds : DataSource) (t : Text) (hwf : t.WF) :
+    (computeInitialInfo ds t none true).paras.length = (paragraphsOf (rawClasses ds t)).length := by
+  have := congrArg List.length (C16_levels ds t hwf)
+  simpa using this
+
+/-- Agreement of `get_base_direction` with the analysis: an `Ltr` / `Rtl` answer is the direction of
+    the auto-detected level of the first paragraph.  (`t.WF` is needed: see `agree_first_needs_WF`.) -/
+theorem C16_agree_first (ds : DataSource) (t : Text) (hwf : t.WF) :
+    (baseDirection ds t false = .ltr →
+      ((computeInitialInfo ds t none true).paras.head?.map (·.level)) = some 0) ∧
+    (baseDirection ds t false = .rtl →
+      ((computeInitialInfo ds t none true).paras.head?.map (·.level)) = some 1) := by
+  rw [← List.head?_map, C16_levels ds t hwf, C16_first]
+  cases paragraphsOf (rawClasses ds t) with
+  | nil => simp
+  | cons p ps =>
+    rcases p2Dir_cases p with ⟨h1, h2⟩ | ⟨h1, h2⟩ | ⟨h1, h2⟩ <;> simp [h1, h2]
+
+/-- Agreement of `get_base_direction_full` with the analysis: if paragraph `k` is the first one for
+    which P2 finds a character (the paragraph the query answers for, `C16_full`), the analysis gives
+    paragraph `k` the level of the answer. -/
+theorem C16_agree_full (ds : DataSource) (t : Text) (hwf : t.WF) :
+    ∀ k, ((paragraphsOf (rawClasses ds t)).map p2Dir).findIdx? (· != .mixed) = some k →
+      (baseDirection ds t true = .ltr ∨ baseDirection ds t true = .rtl) ∧
+      ((computeInitialInfo ds t none true).paras[k]?.map (·.level)) =
+        some (if baseDirection ds t true = .rtl then 1 else 0) := by
+  intro k hk
+  obtain ⟨a, h1, h2, h3⟩ := findIdx_some_find _ _ k hk
+  rw [← List.getElem?_map, C16_levels ds t hwf, C16_full, h3]
+  simp only [List.getElem?_map] at h1 ⊢
+  cases hp : (paragraphsOf (rawClasses ds t))[k]? with
+  | none => simp [hp] at h1
+  | some p =>
+    simp only [hp, Option.map_some, Option.some.injEq] at h1
+    subst h1
+    rcases p2Dir_cases p with ⟨e1, e2⟩ | ⟨e1, e2⟩ | ⟨e1, e2⟩ <;> simp [e1, e2] at h2 ⊢
+
+/-- … and when no paragraph has an answer the query says `Mixed` and the analysis gives every
+    paragraph level 0 (P3). -/
+theorem C16_agree_full_none (ds : DataSource) (t : Text) (hwf : t.WF)
+    (h : ((paragraphsOf (rawClasses ds t)).map p2Dir).findIdx? (· != .mixed) = none) :
+    baseDirection ds t true = .mixed ∧
+    ∀ pi ∈ (computeInitialInfo ds t none true).paras, pi.level = 0 := by
+  rw [List.findIdx?_eq_none_iff] at h
+  have hall : ∀ p ∈ paragraphsOf (rawClasses ds t), p2Dir p = .mixed := by
+    intro p hp
+    have := h (p2Dir p) (List.mem_map_of_mem hp)
+    simpa using this
+  constructor
+  · rw [C16_full, List.find?_eq_none.2 (by simpa using h)]
+    rfl
+  · intro pi hpi
+    have hm : pi.level ∈ (computeInitialInfo ds t none true).paras.map (·.level) :=
+      List.mem_map_of_mem hpi
+    rw [C16_levels ds t hwf, List.mem_map] at hm
+    obtain ⟨p, hp, he⟩ := hm
+    rcases p2Dir_cases p with ⟨e1, e2⟩ | ⟨e1, e2⟩ | ⟨e1, e2⟩
+    · simp [hall p hp] at e1
+    · simp [hall p hp] at e1
+    · omega
+
+
+/-! ### non-vacuity and tests -/
+
+/-- "1 ¶ RLI א PDI ␠ a ¶ ב" as a `&str` (hardcoded classes: EN B RLI R PDI WS L B R): three
+    paragraphs; the first has no strong character, the second has its R inside an isolate and then an L,
+    the third is R. -/
+def exText : Text := Text.ofScalars [0x31, 0x2029, 0x2067, 0x5D0, 0x2069, 0x20, 0x61, 0x2029, 0x5D1]
+
+/-- the hypothesis `t.WF` of the agreement theorems holds for this text (as for every `&str`) -/
+theorem exText_WF : exText.WF := by
+  constructor
+  · simp [exText, Text.ofScalars, Text.layout, SegsFrom, Text.totalLen, Enc.charLen, utf8Len]
+  · decide
+
+/-- test (evaluation on a literal): the classes and the paragraphs of the example -/
+example : paragraphsOf (rawClasses hardcoded exText) = [[EN, B], [RLI, R, PDI, WS, L, B], [R]] := by
+  decide +kernel
+
+/-- test: `get_base_direction` says Mixed (first paragraph), `get_base_direction_full` says Ltr -/
+example : baseDirection hardcoded exText false = .mixed ∧ baseDirection hardcoded exText true = .ltr := by
+  decide +kernel
+
+/-- non-vacuity of `C16_agree_full`: the hypothesis holds with `k = 1` for the example, and the
+    conclusion is about a real paragraph -/
+example : ((paragraphsOf (rawClasses hardcoded exText)).map p2Dir).findIdx? (· != .mixed) = some 1 ∧
+    (computeInitialInfo hardcoded exText none true).paras =
+      [⟨0, 4, 0⟩, ⟨4, 17, 0⟩, ⟨17, 19, 1⟩] := by
+  decide +kernel
+
+/-- non-vacuity of `C16_agree_first`: a text whose answer is Rtl ("RLI a PDI א"), and one whose answer
+    is Ltr -/
+example : baseDirection hardcoded (Text.ofScalars [0x2067, 0x61, 0x2069, 0x5D0]) false = .rtl ∧
+    baseDirection hardcoded (Text.ofScalars [0x2067, 0x5D0, 0x2069, 0x61]) false = .ltr := by
+  decide +kernel
+
+/-- `t.WF` cannot be dropped from `C16_agree_first`: for a "text" whose declared length is 0 although
+    it has a character, `compute_initial_info` reports no paragraph at all while the query says Ltr.
+    (No `&str` / `&[u16]` is like this.) -/
+theorem agree_first_needs_WF :
+    ∃ (ds : DataSource) (t : Text), baseDirection ds t false = .ltr ∧
+      (computeInitialInfo ds t none true).paras = [] :=
+  ⟨{ cls := fun _ => .L, brk := fun _ => none },
+   { enc := .utf8, len := 0, segs := [{ start := 0, cp := 0x61, len := 1 }] }, by decide⟩
+
+/-- tests of `p2Dir` / `paragraphsOf` on small class lists (evaluation on literals) -/
+example : p2Dir [LRI, R, PDI, L] = .ltr ∧ p2Dir [PDI, R] = .rtl ∧ p2Dir [FSI, LRI, PDI, R] = .mixed ∧
+    p2Dir [LRI, LRI, PDI, R, PDI, AL, B] = .rtl ∧ p2Dir [ON, B] = .mixed ∧
+    paragraphsOf [LRI, R, B, L] = [[LRI, R, B], [L]] ∧ paragraphsOf [B, B, R, B] = [[B], [B], [R, B]] := by
+  decide
 
 end UBidi.Props.C16
